@@ -1,5 +1,5 @@
 #!/venv/bin/python
-"""Insert the output of tools/seeded_table.py between the SEEDED_TABLE markers of DESIGN.md."""
+"""Insert the output of tools/seeded_table.py / tools/benign_table.py between the SEEDED_TABLE / BENIGN_TABLE markers of DESIGN.md."""
 import os, subprocess, sys
 HERE = os.path.dirname(os.path.dirname(os.path.abspath(__file__)))
 t = subprocess.run([sys.executable, os.path.join(HERE, "tools", "seeded_table.py")], capture_output=True, text=True).stdout
@@ -8,3 +8,9 @@ s = open(p).read()
 a, b = s.index("<!-- SEEDED_TABLE_BEGIN -->") + len("<!-- SEEDED_TABLE_BEGIN -->"), s.index("<!-- SEEDED_TABLE_END -->")
 open(p, "w").write(s[:a] + "\n" + t + s[b:])
 print("table rows:", t.count("\n") - 2)
+s = open(p).read()
+if "<!-- BENIGN_TABLE_BEGIN -->" in s:
+    t = subprocess.run([sys.executable, os.path.join(HERE, "tools", "benign_table.py")], capture_output=True, text=True).stdout
+    a, b = s.index("<!-- BENIGN_TABLE_BEGIN -->") + len("<!-- BENIGN_TABLE_BEGIN -->"), s.index("<!-- BENIGN_TABLE_END -->")
+    open(p, "w").write(s[:a] + "\n" + t + s[b:])
+    print("benign rows:", t.count("\n") - 2)
